@@ -6,7 +6,7 @@ episode oracle computed from the unfiltered execution."""
 from vlib import env, core, gen, asserts, printer, gread  # noqa: F401
 
 ID = "C01"
-BUDGET = {"quick": 2500, "thorough": 25000}
+BUDGET = {"quick": 2000, "thorough": 25000}
 PROFILE = gen.profile(retract="wild")
 RULE = ("Hypothesis draws a configuration (G90-influences-extruder, enter/exit scripts, extended-code modes, debug logging), "
         "0-3 rect/circle regions (off-grid borders, or exact on-grid borders), and 6-40 abstract ops (moves aimed at region "
